@@ -359,6 +359,11 @@ func genCorpus(seed uint64, size int) *proto.Corpus {
 	// length 256 / 512 / 1024 / 4096 bytes, 32 / 64 / 128 list entries, nesting depth 40)
 	g.sizeFamilies()
 
+	// flood families: tens of thousands of DISTINCT spellings in one process (unknown ids,
+	// case variants of listed ids, distinct valid license strings, distinct references):
+	// tables that fill up, wrap around, are reset or evicted, counters of narrow types
+	g.floodFamilies(size > 4000)
+
 	// cross-function families: the SAME list through ValidateLicenses and through
 	// Satisfies (and its elements through ExtractLicenses), including lists that one
 	// function accepts and the other rejects (expression entries)
@@ -773,6 +778,145 @@ func (g *corpusGen) sizeFamilies() {
 		g.add(proto.Call{Fn: proto.FnSatisfies, Expr: ids[n-1] + " AND " + ids[0], List: ids, Fam: g.fam, Tag: "size"})
 		g.add(proto.Call{Fn: proto.FnSatisfies, Expr: ids[1], List: l, Fam: g.fam, Tag: "size"})
 		_ = r
+	}
+}
+
+// floodFamilies: calls whose only purpose is to push many distinct strings through the
+// library's lookups. Every string occurs in exactly one list. Tag "flood": the sequential
+// passes execute them like any other call (the soak pass only in some of its cycles); the
+// workload generator uses the small ones, rarely, as a task that runs alongside others.
+func (g *corpusGen) floodFamilies(full bool) {
+	nUnknown, nCase, nValid, nRef := 68, 8, 8, 4
+	if !full {
+		nUnknown, nCase, nValid, nRef = 4, 2, 3, 1
+	}
+	hold := map[string]bool{} // ids kept out of every flood list: the expressions asked against them
+	var asks []string
+	for _, id := range g.active {
+		if len(asks) < 4 && len(id) >= 3 && !strings.HasSuffix(id, "-only") && !strings.HasSuffix(id, "-or-later") && !strings.ContainsAny(id, "+") {
+			asks = append(asks, id)
+			hold[id] = true
+		}
+	}
+	// (a) unknown identifiers, never repeated (more than 2^16 of them in a full corpus)
+	ctr := 0
+	for k := 0; k < nUnknown; k++ {
+		g.fam++
+		n := 1000
+		if k%17 == 3 {
+			n = 250 // small ones: usable as a flooding task in simulated runs
+		}
+		l := make([]string, n)
+		for i := range l {
+			switch k % 4 {
+			case 0, 1:
+				l[i] = "zz-flood-" + strconv.Itoa(ctr)
+			case 2:
+				l[i] = "Flood" + strconv.Itoa(ctr) + "-1.0+"
+			default:
+				l[i] = "flood." + strconv.Itoa(ctr) + "-only"
+			}
+			ctr++
+		}
+		g.add(proto.Call{Fn: proto.FnValidate, List: l, Fam: g.fam, Tag: "flood"})
+	}
+	// (b) letter-case variants of listed identifiers (valid, found by the case-insensitive walk)
+	var longIDs []string
+	for _, id := range g.active {
+		letters := 0
+		for i := 0; i < len(id); i++ {
+			if c := id[i] | 0x20; c >= 'a' && c <= 'z' {
+				letters++
+			}
+		}
+		if letters >= 11 && !hold[id] {
+			longIDs = append(longIDs, id)
+		}
+	}
+	v := 1
+	for k := 0; k < nCase && len(longIDs) > 0; k++ {
+		g.fam++
+		n := 1000
+		if k == 1 {
+			n = 250
+		}
+		l := make([]string, n)
+		for i := range l {
+			id := []byte(longIDs[(k*1000+i)%len(longIDs)])
+			bits, bit := v, 0
+			for j := range id {
+				if c := id[j] | 0x20; c >= 'a' && c <= 'z' {
+					if bits>>(bit%10)&1 == 1 {
+						id[j] ^= 0x20
+					}
+					bit++
+				}
+			}
+			l[i] = string(id)
+			if (k*1000+i)%len(longIDs) == len(longIDs)-1 {
+				v++ // next round over the ids: another case pattern (1..1023 patterns over >= 11 letters)
+			}
+		}
+		g.add(proto.Call{Fn: proto.FnValidate, List: l, Fam: g.fam, Tag: "flood"})
+		g.add(proto.Call{Fn: proto.FnSatisfies, Expr: asks[k%len(asks)], List: l, Fam: g.fam, Tag: "flood"})
+	}
+	// (c) distinct VALID license strings: listed ids, ids with '+', ids WITH an exception
+	var pool []string
+	for _, id := range g.active {
+		if !hold[id] {
+			pool = append(pool, id)
+		}
+	}
+	nv := 0
+	nextValid := func() string {
+		i := nv
+		nv++
+		id := pool[i%len(pool)]
+		switch round := i / len(pool); {
+		case round == 0:
+			return id
+		case round == 1 && !strings.HasSuffix(id, "-only") && !strings.HasSuffix(id, "-or-later"):
+			return id + "+"
+		default:
+			return id + " WITH " + g.exceptions[(i/len(pool)+i)%len(g.exceptions)]
+		}
+	}
+	for k, n := range []int{300, 520, 600, 1100, 250, 1100, 1100, 1100}[:nValid] {
+		g.fam++
+		l := make([]string, n)
+		for i := range l {
+			l[i] = nextValid()
+		}
+		ask := asks[k%len(asks)]
+		g.add(proto.Call{Fn: proto.FnValidate, List: l, Fam: g.fam, Tag: "flood"})
+		g.add(proto.Call{Fn: proto.FnSatisfies, Expr: ask, List: l, Fam: g.fam, Tag: "flood"})                      // not in the list
+		g.add(proto.Call{Fn: proto.FnSatisfies, Expr: l[n-1], List: l, Fam: g.fam, Tag: "flood"})                   // the last entry
+		g.add(proto.Call{Fn: proto.FnSatisfies, Expr: ask + " OR " + l[n/2], List: l, Fam: g.fam, Tag: "flood"})    // second alternative, middle entry
+		g.add(proto.Call{Fn: proto.FnSatisfies, Expr: ask + " AND " + l[0], List: l, Fam: g.fam, Tag: "flood"})     // one of two missing
+		or := strings.Join(l[:120], " OR ")
+		g.add(proto.Call{Fn: proto.FnExtract, Expr: or, Fam: g.fam, Tag: "flood"})
+		g.add(proto.Call{Fn: proto.FnSatisfies, Expr: or, List: []string{ask}, Fam: g.fam, Tag: "flood"})
+	}
+	// (d) distinct user-defined references
+	rc := 0
+	for k := 0; k < nRef; k++ {
+		g.fam++
+		n := 1000
+		if k == 0 {
+			n = 250
+		}
+		l := make([]string, n)
+		for i := range l {
+			if k%2 == 0 {
+				l[i] = "LicenseRef-flood-" + strconv.Itoa(rc)
+			} else {
+				l[i] = "DocumentRef-flood" + strconv.Itoa(rc%97) + ":LicenseRef-f" + strconv.Itoa(rc)
+			}
+			rc++
+		}
+		g.add(proto.Call{Fn: proto.FnValidate, List: l, Fam: g.fam, Tag: "flood"})
+		g.add(proto.Call{Fn: proto.FnSatisfies, Expr: l[n-1], List: l, Fam: g.fam, Tag: "flood"})
+		g.add(proto.Call{Fn: proto.FnSatisfies, Expr: "LicenseRef-flood-none OR " + l[n/3], List: l, Fam: g.fam, Tag: "flood"})
 	}
 }
 
